@@ -543,6 +543,9 @@ _add(Prop(
             "immaterial there, but that is an observation from the slice, not a separate verdict",
     stubs=["alloc::alloc::alloc / alloc_zeroed / realloc / realloc_nonnull / dealloc / dealloc_nonnull -> versions that assert "
            "!STEADY, count, and forward to __rust_alloc / __rust_alloc_zeroed / __rust_realloc / __rust_dealloc",
+           "alloc::fmt::format -> asserts !STEADY (a String built by format! is one allocation; only the empty literal is "
+           "exempt) and returns String::new(): the formatting machinery itself is not explored (it makes the harness "
+           "undecidable), so a format! call whose output happens to be empty would be over-reported",
            "dasp_interpolate::sinc::ops::f64::{sin,cos} -> constant 0.25 (api::rate_conversion only)"],
     assumptions=["sample values are kept small enough that no arithmetic-overflow panic (not an allocation question) ends a path early",
                  "positive controls (Vec::push, Vec growth, Box drop in the steady phase) must be REFUTED on every run, "
